@@ -227,7 +227,7 @@ func nativeObserved(chk *Check, c *vpCase, r *vpResult, confirmed map[string][]v
 	for _, e := range r.Events {
 		if strings.HasPrefix(e, "A:") && strings.HasSuffix(e, ":false") {
 			lab := strings.TrimSuffix(strings.TrimPrefix(e, "A:"), ":false")
-			v := violation{Harness: c.Harness, Label: lab, Case: c, Kind: "assert", Detail: "observed in the native replay (the engine's own path differs here: its model of the code, e.g. of aliasing through package unsafe, is not exact for this input)"}
+			v := violation{Harness: c.Harness, Label: lab, Case: c, Kind: "assert", Detail: "observed in the native replay only (a native-only assertion, or the engine's own path differs here because its model of the code - e.g. of aliasing through package unsafe - is not exact for this input)"}
 			key := v.Harness + "|" + v.Label
 			dup := false
 			for _, old := range confirmed[key] {
